@@ -485,7 +485,7 @@ func c39History(r *vkit.Run, caseNo int, rg *vkit.Rand) {
 		// burst: the hot cache store is emptied by a snapshot, then all clients write their first
 		// value of the SAME series field at the same moment (distinct timestamps): the
 		// check-then-insert window of the cache's per-key entry creation
-		nburst := 3
+		nburst := 10
 		if mode == "delete" {
 			nburst = 120 // cheap here: the key is emptied by a delete, no file is written
 		}
@@ -542,8 +542,34 @@ func c39History(r *vkit.Run, caseNo int, rg *vkit.Rand) {
 					rec.add(cl+1, c39In{Op: "write", Key: sd.Key + "|" + f, Pts: []c39P{{t, id}}}, call, c39Out{}, ret)
 				}(cl)
 			}
+			if mode == "snapshot" && b%2 == 1 {
+				// what the store does to a shard it finds idle (empty cache, nothing to compact),
+				// at the moment the first writes arrive: compactions switched off and on again,
+				// or the shard's resources released
+				bw.Add(1)
+				go func(b int) {
+					defer bw.Done()
+					<-go0
+					smu.RLock()
+					c := rec.now()
+					if b%4 == 1 {
+						s.Sh.SetCompactionsEnabled(false)
+						s.Sh.SetCompactionsEnabled(true)
+					} else {
+						s.Sh.Free()
+					}
+					rec.note(0, "idle_release_during_burst", c, rec.now())
+					smu.RUnlock()
+				}(b)
+				r.Event("burst_with_idle_release", 1)
+			}
 			close(go0)
 			bw.Wait()
+			if os.Getenv("VERIF_C39_DEBUG") != "" {
+				got, _ := s.Read(sd.Key, f, int64(1000*(round*200+b+1)), int64(1000*(round*200+b+1)+999), true)
+				acc := s.Eng().Cache.VerifAccounting()
+				fmt.Printf("DEBUG case=%d round=%d b=%d key=%s visible=%d of %d cache=%+v\n", caseNo, round, b, sd.Key, len(got), nclients, acc)
+			}
 			r.Event("burst_first_writes", int64(nclients))
 		}
 		// barrier: everything quiescent; full read of every key, then close + reopen
